@@ -15,6 +15,10 @@ on M (which has no state shared between objects) against what the object looked 
 nobody else changed it.  S: after each successful initialisation() the object equals a directly constructed one, a model
 rebuilt from it equals the directly built model, every calibration that returned reprices; all direct constructions the
 oracles need are deferred to the end of the history (a construction is itself an event of such a history).
+Model classes: every stream (history / calibration / interleaved / multi-object) runs the five shipped exponential classes AND
+user-defined subclasses of them (`model_class`: mandated constructor (spot, r, d, parameters); overrides of df(t), of the drift
+inside log_characteristic_function, both, or none); "same model type" means the object's own Python class and every reference
+price of the oracles is the price of a directly constructed model of that class.
 Generated (ProofsGen/C20Table): `default_calibration`, constructor arguments, acceptance pattern of every setter, the
 attributes rewritten by `initialisation()` and the pricer / target configuration used inside the calibration objective are
 measured on the running code and re-checked by `lake build` (objective_is_repricing_function).
@@ -64,7 +68,13 @@ RULE = ("histories: 5 Parameters classes x start values x 4..14 operations drawn
         "object, deepcopy, construction, model rebuild, calibrate_model_parameter / _to_atm_call / run_default_calibration on a model "
         "built earlier in the history or on a fresh one (product targets priced at a hidden value inside the interval)}, then a batch "
         "update: primaries of every object re-assigned inside the documented box, possibly a calibration on another model, "
-        "initialisation() of every object in random order, a model rebuilt from every object. non-trivial = history with >= 1 accepted "
+        "initialisation() of every object in random order, a model rebuilt from every object. model classes: in every stream a share "
+        "of the models (a dedicated calibration stream of 8 per family, every other interleaved pair incl. two different subclasses of "
+        "one shipped class on the same parameters, 40% of the multi-object build events, every 4th history) are instances of "
+        "USER-DEFINED subclasses of the shipped exponential classes with the mandated constructor (spot, r, d, parameters): no "
+        "override / df(t) on a curve r - level / extra drift -level in log_characteristic_function set up in an overridden __init__ / "
+        "both, level in {0.005, 0.02, -0.01, 0.04}; reachability, market prices at hidden values and repricing are computed with "
+        "the object's own class. non-trivial = history with >= 1 accepted "
         "assignment and >= 1 initialisation, or a calibration whose reachability was decided by the sign of the objective at both "
         "interval ends, or a multi-object history in which another object's initialisation() / a calibration ran between an object's "
         "accepted assignment and its own initialisation(); "
@@ -85,6 +95,9 @@ NOT_PROVED = [
     "calibration's private copies included) is a structural fact of M (one state per object, Drivers/C20 holds a single object); on "
     "the implementation it is compared per object over interleaved histories (c20.multi.model) and oracle-checked "
     "(c20.multi.derived_in_sync / rebuilt_vs_direct / calibrate), not proved",
+    "user-defined model classes are sampled (four override kinds on the five shipped classes), not quantified over; the measured "
+    "pricer / target configuration of the generated obligation objective_is_repricing_function is taken on the shipped classes only, "
+    "that the objective prices a model of the caller's own class is oracle-checked (c20.calibrate.reprices / default_model, c20.multi.calibrate)",
     "float rounding of the rational cached attributes (HEM _xi, VG _c, BS variance) is compared at 2^-40 relative to the sum of the absolute terms",
 ]
 ASSUMPTIONS = [
@@ -93,7 +106,14 @@ ASSUMPTIONS = [
     "same strict signs => ValueError; otherwise (an end value within 1e-9 of 0 or NaN) only the exception type is checked",
     "repricing tolerance 1e-6 (measured residuals over seeds 0..5: <= 1e-10), parameter-object equality exact; inside multi-object "
     "histories a returned value that misses 1e-6 is still accepted when the objective changes sign within brentq's x-tolerance "
-    "(4e-12 + 1e-14 |x|) of it (the statement's 'within the root-finder tolerance', for steep objectives)",
+    "(4e-12 + 1e-14 |x|) of it (the statement's 'within the root-finder tolerance', for steep objectives); the same in the single-model "
+    "stream for calibrate_model_parameter / _to_atm_call values (not for the model returned by run_default_calibration, which must "
+    "reprice within 1e-6): met once in a thorough run, target -1 for a call, answered at c = 2.6e-12 where the COS price of a "
+    "near-degenerate CGMY model is series noise",
+    "'all model types' includes user-defined subclasses of the shipped exponential classes that keep the constructor signature "
+    "(spot, r, d, parameters) the library's design mandates (model/utils.py); 'same type' = same Python class; 'reprices' = the COS "
+    "price of a model of that class constructed directly from the calibrated parameters; the Black-Scholes target of the default "
+    "calibration stays the closed form at the model's spot / r / d whatever the subclass overrides",
     "multi-object histories calibrate only models whose parameter object is in a re-initialised state, unchanged since the model was "
     "built, and a proper model (model_ok); any ValueError of a calibration is accepted there ('or raises'), reachability is the "
     "single-model calibration stream's subject",
@@ -137,6 +157,69 @@ ALT = {
     "cgmy": dict(c=2.0, g=10.0, m=25.0, y=0.75),
 }
 GRID = [-1.0, 0.0, 0.5, 1.0, 2.0, 2.5]
+
+
+# ------------------------------------------------------------------------------- user-defined exponential model classes
+# The property quantifies over "all model types": every exponential-of-Lévy model the calibration functions accept, and the library's
+# design asks only for the constructor signature (spot, r, d, parameters).  So next to the five shipped classes every stream of this
+# check also runs USER-DEFINED SUBCLASSES of them, written with nothing but the public classes, that override something
+# pricing-relevant while keeping the mandated constructor.  "Same model type" and "reprices the target" are then demanded for the
+# object's OWN class and pricing behaviour (every reference model of the oracles is built with `type(model)` / the same class).
+#   variant = None                      the shipped class
+#   variant = [kind, level]             kind in USER_KINDS, level a small rate
+#     plain              subclass without any override (only its identity differs)
+#     collateral         df(t) = exp(-(r - level) t): cash flows discounted on another curve (level of either sign)
+#     carry              __init__ (mandated signature) stores a borrow cost; log_characteristic_function gets the extra drift -level,
+#                        hence the forward spot * mean(t) of the put-call parity too
+#     collateral+carry   both
+USER_KINDS = ["plain", "collateral", "carry", "collateral+carry"]
+USER_LEVELS = [0.005, 0.02, -0.01, 0.04]
+_USER_CLASSES = {}
+
+
+def _make_user_class(base, kind, level):
+    ns = {"user_kind": kind, "user_level": level, "__doc__": f"user-defined {kind} subclass of {base.__name__} (harness C20)"}
+    if "collateral" in kind:
+        def df(self, t):
+            return np.exp(-(self.r - self.user_level) * t)
+        ns["df"] = df
+    if "carry" in kind:
+        def __init__(self, spot, r, d, parameters):
+            base.__init__(self, spot=spot, r=r, d=d, parameters=parameters)
+            self.borrow_cost = self.user_level
+
+        def log_characteristic_function(self, t, x, log_spot=None):
+            return base.log_characteristic_function(self, t, x, log_spot) * np.exp(-1j * np.asarray(x) * self.borrow_cost * t)
+        ns["__init__"] = __init__
+        ns["log_characteristic_function"] = log_characteristic_function
+    name = "User" + "".join(w_.capitalize() for w_ in kind.split("+")) + base.__name__
+    return type(name, (base,), ns)
+
+
+def model_class(fam, variant=None):
+    """the exponential model class of a case: the shipped one, or a user-defined subclass of it (one class object per variant)"""
+    base = CLASSES[fam][2]
+    if not variant:
+        return base
+    kind, level = variant[0], float(variant[1])
+    if kind not in USER_KINDS:
+        raise Infra(f"unknown user model kind {kind!r}")
+    key = (fam, kind, level)
+    if key not in _USER_CLASSES:
+        _USER_CLASSES[key] = _make_user_class(base, kind, level)
+    return _USER_CLASSES[key]
+
+
+def draw_variant(rng, p_user=1.0):
+    """None with probability 1 - p_user, else a user-defined variant"""
+    if rng.random() >= p_user:
+        return None
+    kind = rng.choice(USER_KINDS + ["collateral", "carry"])
+    return [kind, rng.choice(USER_LEVELS)]
+
+
+def variant_tag(variant):
+    return "shipped" if not variant else "user:" + variant[0]
 
 
 # ------------------------------------------------------------------------------------------------ generated tables
@@ -463,6 +546,8 @@ def rebuilt_vs_direct(ctx, desc, cls_, fam, obj, with_model):
     if not with_model or not model_ok(fam, final):
         return
     spot, r, d = 100.0, 0.02, 0.01
+    expcls = model_class(fam, desc.get("variant") if isinstance(desc, dict) else None)
+    ctx.branches["c20.rebuilt_vs_direct:class:" + variant_tag(desc.get("variant") if isinstance(desc, dict) else None)] += 1
     try:
         with np.errstate(all="ignore"):
             m1 = expcls(spot=spot, r=r, d=d, parameters=obj)
@@ -620,8 +705,11 @@ def bs_call(spot, strike, r, d, sigma, T):
     return math.exp(-r * T) * (fwd * N(d1) - strike * N(d2))
 
 
-def price_with(fam, params, name, value, spot, r, d, product):
-    cls, prims, expcls, _m = CLASSES[fam]
+def price_with(fam, params, name, value, spot, r, d, product, expcls=None):
+    """the COS price (user's default pricer) of a freshly, directly constructed model of class `expcls` (default: the shipped class
+    of the family) at `params` with `name` set to `value`"""
+    cls, prims, shipped, _m = CLASSES[fam]
+    expcls = expcls or shipped
     args = dict(params)
     args[name] = value
     with np.errstate(all="ignore"):
@@ -638,14 +726,17 @@ def full_params(fam, params):
 def calibration_probe(ctx, c):
     """c = dict(fam, params, spot, r, d, mode in {default, atm, product}, maturity, bs_sigma | strike, ptype, hidden, market)"""
     fam = c["fam"]
-    cls, prims, expcls, mt = CLASSES[fam]
+    cls, prims, _shipped, mt = CLASSES[fam]
+    # the model's class: shipped, or a user-defined subclass overriding something pricing-relevant; every reference price below
+    # is the price of a directly constructed model of THIS class
+    expcls = model_class(fam, c.get("variant"))
     params = full_params(fam, c["params"])
     spot, r, d, T = c["spot"], c["r"], c["d"], c["maturity"]
     cfg = mu.default_calibration[mt]
     name = c.get("parameter", cfg.parameter)
     lo, hi = c.get("interval", cfg.parameter_interval)
     desc = c
-    cls_ = dict(stream="calibration", family=fam, mode=c["mode"])
+    cls_ = dict(stream="calibration", family=fam, mode=c["mode"], model_class=variant_tag(c.get("variant")))
     model = expcls(spot=spot, r=r, d=d, parameters=cls(**params))
     if c.get("reinit"):
         # construction history: the same model rebuilt through an edited and re-initialised parameter object
@@ -658,14 +749,14 @@ def calibration_probe(ctx, c):
         if "market" in c:
             market = c["market"]
         else:
-            market = price_with(fam, params, name, c["hidden"], spot, r, d, product)
+            market = price_with(fam, params, name, c["hidden"], spot, r, d, product, expcls)
     else:
         product = Product(payoff_underlying=Spot(), payoff=Vanilla(strike=spot, payoff_type=PayoffType.CALL), maturity=T)
         market = bs_call(spot, spot, r, d, c["bs_sigma"], T)
     # reachability, decided independently of the calibration code
     try:
-        fa = price_with(fam, params, name, lo, spot, r, d, product) - market
-        fb = price_with(fam, params, name, hi, spot, r, d, product) - market
+        fa = price_with(fam, params, name, lo, spot, r, d, product, expcls) - market
+        fb = price_with(fam, params, name, hi, spot, r, d, product, expcls) - market
     except Exception as e:
         fa = fb = float("nan")
     if math.isnan(fa) or math.isnan(fb) or abs(fa) <= 1e-9 or abs(fb) <= 1e-9:
@@ -695,6 +786,7 @@ def calibration_probe(ctx, c):
                                                           "exception": repr(e)[:400]}, cls=cls_)
         return
     ctx.count("c20.calibrate", desc, nontrivial=expect != "dontcare", branch=f"{fam}:{c['mode']}:{expect}:{out}")
+    ctx.branches["c20.calibrate:class:" + variant_tag(c.get("variant"))] += 1
     # input untouched, whatever happened
     after = model.levy_model.parameters.__dict__
     after_model = (model.spot, model.r, model.d, model.omega, model.levy_triplet.a, model.levy_triplet.sigma)
@@ -715,9 +807,22 @@ def calibration_probe(ctx, c):
     if not (lo <= x <= hi):
         ctx.fail("oracle", "c20.calibrate.in_interval", desc, {"x": x, "interval": [lo, hi]}, cls=cls_)
         return
-    re = price_with(fam, params, name, x, spot, r, d, product)
+    re = price_with(fam, params, name, x, spot, r, d, product, expcls)
+    if not abs(re - market) <= 1e-6 and c["mode"] != "default":
+        # literally "within the root-finder tolerance": the objective changes sign within brentq's x-tolerance of the answer (seen
+        # for targets no vanilla can be worth, met only by the COS series' noise at the degenerate end c -> 1e-12 of the CGMY interval)
+        dx = 4e-12 + 1e-14 * abs(x)
+        try:
+            fl = price_with(fam, params, name, max(lo, x - dx), spot, r, d, product, expcls) - market
+            fh = price_with(fam, params, name, min(hi, x + dx), spot, r, d, product, expcls) - market
+        except Exception:
+            fl = fh = float("nan")
+        if fl * fh <= 0:
+            ctx.branches["c20.calibrate:steep_objective"] += 1
+            return
     if not abs(re - market) <= 1e-6:
-        ctx.fail("oracle", "c20.calibrate.reprices", desc, {"x": x, "repriced": re, "market": market, "residual": re - market}, cls=cls_)
+        ctx.fail("oracle", "c20.calibrate.reprices", desc, {"x": x, "repriced": re, "market": market, "residual": re - market,
+                                                            "model_class": expcls.__name__}, cls=cls_)
         return
     ctx.notes_resid = max(getattr(ctx, "notes_resid", 0.0), abs(re - market))
     if c.get("bs_limit"):
@@ -792,11 +897,14 @@ def interleaved_probe(ctx, cA, cB):
     default pricer, A's first and last answers must coincide, and a model returned by a calibration, calibrated again to the
     same target, must still reprice it"""
     desc = dict(kind="interleaved", A=cA, B=cB)
-    cls_ = dict(stream="calibration", family=cA["fam"], mode="interleaved")
+    cls_ = dict(stream="calibration", family=cA["fam"], mode="interleaved",
+                model_class=variant_tag(cA.get("variant")) + " | " + variant_tag(cB.get("variant")))
     ctx.count("c20.calibrate.interleaved", desc, nontrivial=True, branch=cA["fam"] + "+" + cB["fam"])
+    ctx.branches["c20.calibrate.interleaved:class:" + cls_["model_class"]] += 1
     built = {}
     for tag, c in (("A", cA), ("B", cB)):
-        cls, prims, expcls, mt = CLASSES[c["fam"]]
+        cls, prims, _shipped, mt = CLASSES[c["fam"]]
+        expcls = model_class(c["fam"], c.get("variant"))     # shipped or user-defined (A and B may be two subclasses of one class)
         built[tag] = expcls(spot=c["spot"], r=c["r"], d=c["d"], parameters=cls(**full_params(c["fam"], c["params"])))
     plan = [("A", cA["bs_sigma"]), ("B", cB["bs_sigma"]), ("A", cA["bs_sigma2"]), ("B", cB["bs_sigma"]), ("A", cA["bs_sigma"])]
     answers = []
@@ -807,6 +915,10 @@ def interleaved_probe(ctx, cA, cB):
         answers.append((tag, sig, None if m2 is None else float(getattr(m2.levy_model.parameters, name))))
         if m2 is None:
             continue
+        if type(m2) is not type(built[tag]):
+            ctx.fail("oracle", "c20.calibrate.default_model", desc, {"what": f"model {tag}: the default calibration returned a {type(m2).__name__} "
+                                                                            f"for a {type(built[tag]).__name__}", "answers": answers}, cls=cls_)
+            return
         product = Product(payoff_underlying=Spot(), payoff=Vanilla(strike=c["spot"], payoff_type=PayoffType.CALL), maturity=c["maturity"])
         market = bs_call(c["spot"], c["spot"], c["r"], c["d"], sig, c["maturity"])
         own = float(np.asarray(COSPricer(m2).price(product=product)).item())
@@ -838,7 +950,9 @@ def interleaved_probe(ctx, cA, cB):
 #   ["copy", j]                    copy.deepcopy of object j (new object)
 #   ["set", j, name, value]        assignment (accepted or rejected)
 #   ["init", j]                    j.initialisation()
-#   ["build", j, spot, r, d]       model #len(models) rebuilt from object j
+#   ["build", j, spot, r, d]       model #len(models) rebuilt from object j with the shipped exponential class of its family
+#   ["build", j, spot, r, d, v]    ... with the user-defined subclass `model_class(fam, v)` (v = [kind, level]); calibrations of such a
+#                                  model, the model a default calibration returns for it and every oracle reference use that class
 #   ["calib", mi, cfg]             a calibration call on model mi (mode default: the returned model and its parameter object join
 #                                  the pools; slots stay empty when the call is skipped / raises, so indices are static)
 # Every direct construction the ORACLES need (fresh object / fresh model at the final values, repricing) is DEFERRED until the
@@ -874,7 +988,11 @@ def make_multi(rng):
         clean[j] = True
 
     def add_build(j):
-        ev.append(["build", j, rng.choice([100.0, 50.0, 1.0]), rng.choice([0.0, 0.02, 0.05]), rng.choice([0.0, 0.01, 0.03])])
+        e = ["build", j, rng.choice([100.0, 50.0, 1.0]), rng.choice([0.0, 0.02, 0.05]), rng.choice([0.0, 0.01, 0.03])]
+        v = draw_variant(rng, 0.4)
+        if v:
+            e.append(v)
+        ev.append(e)
         models.append((j, ver[j]))
         return len(models) - 1
 
@@ -954,9 +1072,10 @@ def make_multi(rng):
     return dict(kind="multi", events=ev)
 
 
-def observe(fam, obj, spot, r, d):
-    """what a model built from `obj` shows: Lévy exponent / omega, integrals of the Lévy measure, the COS price of the ATM call"""
-    expcls = CLASSES[fam][2]
+def observe(fam, obj, spot, r, d, expcls=None):
+    """what a model (of class `expcls`, default the shipped one) built from `obj` shows: Lévy exponent / omega, integrals of the
+    Lévy measure, the COS price of the ATM call"""
+    expcls = expcls or CLASSES[fam][2]
     with np.errstate(all="ignore"):
         m = expcls(spot=spot, r=r, d=d, parameters=obj)
         us = [0.7, -1.3 + 0.4j, -1j, 4.0 - 0.5j]
@@ -1108,23 +1227,25 @@ def _multi_body(ctx, h, with_model, st):
             if lv is None:
                 models.append(None)
                 continue
-            _, j, spot, r, d = e
+            _, j, spot, r, d = e[:5]
+            mcls = model_class(lv.fam, e[5] if len(e) > 5 else None)
+            ctx.branches["c20.multi.build:class:" + variant_tag(e[5] if len(e) > 5 else None)] += 1
             prim = {n: lv.obj.__dict__[n] for n in CLASSES[lv.fam][1]}
             try:
                 with np.errstate(all="ignore"):
-                    model = CLASSES[lv.fam][2](spot=spot, r=r, d=d, parameters=lv.obj)
+                    model = mcls(spot=spot, r=r, d=d, parameters=lv.obj)
             except Exception as ex:
                 ctx.branches["c20.multi.build:raises:" + type(ex).__name__] += 1
                 models.append(None)
                 continue
-            models.append(dict(model=model, j=j, version=lv.version))
+            models.append(dict(model=model, j=j, version=lv.version, mcls=mcls))
             if with_model and lv.clean and model_ok(lv.fam, prim):
                 try:
-                    obs = observe(lv.fam, lv.obj, spot, r, d)
+                    obs = observe(lv.fam, lv.obj, spot, r, d, mcls)
                 except Exception as ex:
                     ctx.branches["c20.multi.build:observe_raises:" + type(ex).__name__] += 1
                     continue
-                model_checks.append((t, j, lv.fam, prim, (spot, r, d), obs))
+                model_checks.append((t, j, lv.fam, prim, (spot, r, d), obs, mcls))
         elif kind == "calib":
             _, mi, cfg = e
             rec = models[mi] if mi < len(models) else None
@@ -1136,7 +1257,7 @@ def _multi_body(ctx, h, with_model, st):
                 if cfg["mode"] == "default":
                     pool.append(None), models.append(None)
                 continue
-            fam, model = lv.fam, rec["model"]
+            fam, model, mcls = lv.fam, rec["model"], rec["mcls"]
             mt = CLASSES[fam][3]
             dc = mu.default_calibration[mt]
             name = cfg.get("parameter", dc.parameter)
@@ -1148,7 +1269,7 @@ def _multi_body(ctx, h, with_model, st):
                 product = Product(payoff_underlying=Spot(), payoff=Vanilla(strike=spot * cfg["strike_rel"], payoff_type=PayoffType[cfg["ptype"]]),
                                   maturity=T)
                 try:
-                    market = price_with(fam, prim, name, cfg["hidden"], spot, r, d, product)
+                    market = price_with(fam, prim, name, cfg["hidden"], spot, r, d, product, mcls)
                 except Exception:
                     market = float("nan")
                 if not math.isfinite(market):
@@ -1179,6 +1300,7 @@ def _multi_body(ctx, h, with_model, st):
                                                                  "exception": repr(ex)[:400]}, cls=dict(cls0, family=fam, mode=cfg["mode"]))
                 return
             ctx.branches[f"c20.multi.calib:{fam}:{cfg['mode']}:{out}"] += 1
+            ctx.branches["c20.multi.calib:class:" + ("shipped" if mcls is CLASSES[fam][2] else "user:" + mcls.user_kind)] += 1
             others_moved(rec["j"])
             after_model = (model.spot, model.r, model.d, model.omega, model.levy_triplet.a, model.levy_triplet.sigma)
             if not _same_dict(snap, lv.obj.__dict__) or snap_model != after_model:
@@ -1194,7 +1316,7 @@ def _multi_body(ctx, h, with_model, st):
                 if cfg["mode"] == "default":
                     with np.errstate(all="ignore"):
                         own = float(np.asarray(COSPricer(res["model"]).price(product=product)).item())
-                calib_checks.append((t, fam, prim, name, x, (lo, hi), (spot, r, d), product, market, own))
+                calib_checks.append((t, fam, prim, name, x, (lo, hi), (spot, r, d), product, market, own, mcls))
                 if cfg["mode"] == "default":
                     cm_ = res["model"]
                     p2 = cm_.levy_model.parameters
@@ -1206,7 +1328,7 @@ def _multi_body(ctx, h, with_model, st):
                     # assignment of the calibrated value (state not observable from outside) and an initialisation()
                     new_lv = _Live(fam, p2, list(lv.log) + [["set", name, x], ["init"]],
                                    list(lv.snaps) + [None, ("ok", dict(p2.__dict__))], True)
-                    new_rec = dict(model=cm_, j=len(pool), version=0)
+                    new_rec = dict(model=cm_, j=len(pool), version=0, mcls=mcls)
                     sync_checks.append((t, len(pool), fam, dict(p2.__dict__)))
             if cfg["mode"] == "default":
                 pool.append(new_lv), models.append(new_rec)
@@ -1250,9 +1372,9 @@ def _multi_body(ctx, h, with_model, st):
                           "final": final}, cls=dict(cls0, family=fam, attr=a))
                 return
     # ---- S: rebuilt vs direct at the level of the model
-    for t, k, fam, prim, (spot, r, d), obs in model_checks:
+    for t, k, fam, prim, (spot, r, d), obs, mcls in model_checks:
         try:
-            ref = observe(fam, CLASSES[fam][0](**prim), spot, r, d)
+            ref = observe(fam, CLASSES[fam][0](**prim), spot, r, d, mcls)
         except Exception as ex:
             ctx.branches["c20.multi.build:direct_raises:" + type(ex).__name__] += 1
             continue
@@ -1265,25 +1387,27 @@ def _multi_body(ctx, h, with_model, st):
                          cls=dict(cls0, family=fam, attr=what))
                 return
     # ---- S: every calibration that returned lies in its interval and reprices its target (fresh model, default pricer)
-    for t, fam, prim, name, x, (lo, hi), (spot, r, d), product, market, own in calib_checks:
-        cls_ = dict(cls0, family=fam, mode="default" if own is not None else "value")
+    for t, fam, prim, name, x, (lo, hi), (spot, r, d), product, market, own, mcls in calib_checks:
+        cls_ = dict(cls0, family=fam, mode="default" if own is not None else "value",
+                    model_class="shipped" if mcls is CLASSES[fam][2] else "user:" + mcls.user_kind)
         if not (lo <= x <= hi):
             ctx.fail("oracle", "c20.multi.calibrate", desc, {"event": t, "what": "calibrated value outside the interval", "x": x, "interval": [lo, hi]}, cls=cls_)
             return
-        re = price_with(fam, prim, name, x, spot, r, d, product)
+        re = price_with(fam, prim, name, x, spot, r, d, product, mcls)
         own = re if own is None else own
         ok = abs(re - market) <= 1e-6 and abs(own - market) <= 1e-6
         if not ok and abs(own - re) <= 1e-6:
             # literally "within the root-finder tolerance": the objective changes sign within brentq's x-tolerance of the answer
             dx = 4e-12 + 1e-14 * abs(x)
-            fl = price_with(fam, prim, name, max(lo, x - dx), spot, r, d, product) - market
-            fh = price_with(fam, prim, name, min(hi, x + dx), spot, r, d, product) - market
+            fl = price_with(fam, prim, name, max(lo, x - dx), spot, r, d, product, mcls) - market
+            fh = price_with(fam, prim, name, min(hi, x + dx), spot, r, d, product, mcls) - market
             if fl * fh <= 0:
                 ok = True
                 ctx.branches["c20.multi.calib:steep_objective"] += 1
         if not ok:
             ctx.fail("oracle", "c20.multi.calibrate", desc, {"event": t, "what": "a calibration inside an interleaved history does not reprice its target",
-                                                             "x": x, "repriced": re, "returned_model_price": own, "market": market}, cls=cls_)
+                                                             "x": x, "repriced": re, "returned_model_price": own, "market": market,
+                                                             "model_class": mcls.__name__}, cls=cls_)
             return
     # ---- C: every object against M, object by object
     for k, lv in live:
@@ -1331,6 +1455,8 @@ def run(ctx):
     for i in range(nh):
         for fam in CLASSES:
             h = make_history(rng, fam, sane=(i % 3 != 0))
+            if i % 4 == 2:
+                h["variant"] = draw_variant(rng)     # the model-level rebuilt-vs-direct comparison on a user-defined model class
             history_probe(ctx, h, with_model=(i % 2 == 0) or ctx.thorough)
     ncal = ctx.n(14, 120)
     for fam in zoo.FAMILIES:
@@ -1342,6 +1468,19 @@ def run(ctx):
                 c["reinit"] = True          # construction history (zoo.reinitialised)
             if j % 5 == 2:
                 c["repeat"] = True          # object reuse
+            calibration_probe(ctx, c)
+    # user-defined model classes (subclasses of the shipped exponential classes overriding discounting / drift, mandated constructor):
+    # the same modes, construction histories and reuse pattern, every reference price taken from the object's own class
+    for fam in zoo.FAMILIES:
+        stream = zoo.model_stream(rng, ctx.n(8, 60), families=[fam])
+        for j, (_f, params) in enumerate(stream):
+            mode = ["default", "product", "atm", "default"][j % 4]
+            c = draw_calibration(rng, fam, params, mode)
+            c["variant"] = [USER_KINDS[(j + 1) % len(USER_KINDS)], rng.choice(USER_LEVELS)] if j < 4 else draw_variant(rng)
+            if j % 3 == 2:
+                c["reinit"] = True
+            if j % 5 == 3:
+                c["repeat"] = True
             calibration_probe(ctx, c)
     # edge of the declared ranges: zero jump intensity with the diffusion volatility as calibrated parameter (Black–Scholes limit),
     # HEM p = 1, CGMY activity exactly 0 / 1
@@ -1355,12 +1494,28 @@ def run(ctx):
             if extra.get("intensity") == 0.0:
                 c["bs_limit"] = True
             calibration_probe(ctx, c)
+            if extra.get("intensity") != 0.0:
+                # the same edge model as a user-defined class (the Black-Scholes-limit oracle 'answer = bs_sigma' is about the
+                # shipped discounting / drift and is not asked of a user class)
+                calibration_probe(ctx, dict(c, variant=draw_variant(rng)))
     fams = list(zoo.FAMILIES)
     for i in range(ctx.n(3, 12)):
         fa, fb = fams[i % 4], fams[(i + 1 + i // 4) % 4]
         cA = draw_calibration(rng, fa, zoo.draw_params(rng, fa), "default")
         cB = draw_calibration(rng, fb, zoo.draw_params(rng, fb), "default")
         cA["bs_sigma2"] = round(rng.uniform(0.1, 0.4), 3)
+        if i % 2 == 0:
+            cA["variant"] = draw_variant(rng)
+        if i % 3 == 1:
+            cB["variant"] = draw_variant(rng)
+        interleaved_probe(ctx, cA, cB)
+    for i in range(ctx.n(1, 4)):
+        # two DIFFERENT user-defined subclasses of one shipped class (and the same parameters) alive in one process
+        fa = fams[(i + 2) % 4]
+        cA = draw_calibration(rng, fa, zoo.draw_params(rng, fa), "default")
+        cB = dict(cA, bs_sigma=round(rng.uniform(0.1, 0.4), 3))
+        cA["bs_sigma2"] = round(rng.uniform(0.1, 0.4), 3)
+        cA["variant"], cB["variant"] = ["collateral", rng.choice(USER_LEVELS)], ["carry", rng.choice(USER_LEVELS)]
         interleaved_probe(ctx, cA, cB)
     # interleaved histories over several live parameter objects (same / different families, deep copies, calibration's copies)
     for i in range(ctx.n(40, 400)):
